@@ -632,3 +632,167 @@ func reachesAvoidingFrom(from, to, avoid *ssa.BasicBlock) bool {
 	return false
 }
 
+
+// ---------------------------------------------------------------- registered goroutines are spawned
+
+// mustCallOrExcuse: on every path of fn from entry to a return, a call of target (directly, or of a
+// module function that itself always calls it) is executed, or a branch edge accepted by excuse is
+// taken. Returns the offending return instruction, or nil.
+func (a *A) mustCallOrExcuse(fn, target *ssa.Function, excuse func(iff *ssa.If) (onTrue, onFalse bool), depth int) ssa.Instruction {
+	if fn.Blocks == nil {
+		return nil
+	}
+	type st struct {
+		b  *ssa.BasicBlock
+		ok bool
+	}
+	seen := map[st]bool{}
+	var bad ssa.Instruction
+	var dfs func(b *ssa.BasicBlock, ok bool)
+	dfs = func(b *ssa.BasicBlock, ok bool) {
+		if bad != nil || seen[st{b, ok}] {
+			return
+		}
+		seen[st{b, ok}] = true
+		for _, in := range b.Instrs {
+			if cc := callCommon(in); cc != nil {
+				if _, isGo := in.(*ssa.Go); !isGo {
+					if callee := cc.StaticCallee(); callee != nil {
+						if callee == target {
+							ok = true
+						} else if depth < 2 && a.fnInModule(callee) && a.CGReaches(callee, target) &&
+							a.mustCallOrExcuse(callee, target, func(*ssa.If) (bool, bool) { return false, false }, depth+1) == nil {
+							ok = true
+						}
+					}
+				}
+			}
+			if r, isRet := in.(*ssa.Return); isRet && !ok {
+				bad = r
+				return
+			}
+		}
+		if iff, isIf := b.Instrs[len(b.Instrs)-1].(*ssa.If); isIf {
+			onT, onF := excuse(iff)
+			dfs(b.Succs[0], ok || onT)
+			dfs(b.Succs[1], ok || onF)
+			return
+		}
+		for _, s := range b.Succs {
+			dfs(s, ok)
+		}
+	}
+	dfs(fn.Blocks[0], false)
+	return bad
+}
+
+// CGReaches: is target reachable from fn over the call graph (module functions only)?
+func (a *A) CGReaches(fn, target *ssa.Function) bool {
+	return a.ReachFrom([]*ssa.Function{fn})[target]
+}
+
+// ruleRegisteredGoroutinesSpawned: Start counts a goroutine in Stream.lifecycle before it exists
+// (lifecycle.Add under a condition C), and the goroutine that calls lifecycle.Done is started later,
+// by the function the pipeline goroutine runs. Every path of that function to a return must start it,
+// unless the path took the branch on which C is false; otherwise the count never drops and Stop waits
+// out its whole grace period (and its watcher goroutine stays parked).
+func (a *A) ruleRegisteredGoroutinesSpawned() int {
+	S := a.Named("stream", "Stream")
+	life := a.FieldOf(S, "lifecycle")
+	start := a.Method("stream", "Stream", "Start")
+	isLife := func(cc *ssa.CallCommon, name string) bool {
+		f := cc.StaticCallee()
+		return f != nil && f.Name() == name && len(cc.Args) > 0 && fieldAddrIs(cc.Args[0], life)
+	}
+	// conditional Adds in Start, with the guarding field
+	type add struct {
+		in    ssa.Instruction
+		guard *types.Var
+	}
+	var adds []add
+	allInstrs(start, func(in ssa.Instruction) {
+		cc := callCommon(in)
+		if cc == nil || !isLife(cc, "Add") || in.Parent() != start {
+			return
+		}
+		var g *types.Var
+		for _, gd := range guardsOf(in.Block()) {
+			if t := TermOf(gd.Cond, nil); gd.Sense && t.Kind == "field" && t.Field != nil {
+				g = t.Field
+			}
+		}
+		adds = append(adds, add{in, g})
+	})
+	// the pipeline function: static callee invoked in Start's own go body
+	var pipeline *ssa.Function
+	for _, af := range start.AnonFuncs {
+		allInstrs(af, func(in ssa.Instruction) {
+			if cc := callCommon(in); cc != nil {
+				if f := cc.StaticCallee(); f != nil && a.fnInModule(f) && f.Name() == "Process" {
+					pipeline = f
+				}
+			}
+		})
+	}
+	if pipeline == nil {
+		a.anchorFail("Start does not run a pipeline function in its goroutine")
+	}
+	// spawners: module functions (other than Start) containing a go whose body defers lifecycle.Done
+	var spawners []*ssa.Function
+	for _, fn := range a.ModFuncs {
+		if fn == start || fn.Parent() == start {
+			continue
+		}
+		allInstrs(fn, func(in ssa.Instruction) {
+			g, ok := in.(*ssa.Go)
+			if !ok || in.Parent() != fn {
+				return
+			}
+			mc, ok := g.Call.Value.(*ssa.MakeClosure)
+			if !ok {
+				return
+			}
+			body := mc.Fn.(*ssa.Function)
+			allInstrs(body, func(x ssa.Instruction) {
+				if d, ok := x.(*ssa.Defer); ok && isLife(&d.Call, "Done") && a.CGReaches(pipeline, fn) {
+					spawners = append(spawners, fn)
+				}
+			})
+		})
+	}
+	n := 0
+	for _, ad := range adds {
+		if ad.guard == nil {
+			continue // the pipeline goroutine itself, started right below in Start
+		}
+		for _, sp := range spawners {
+			n++
+			g := ad.guard
+			bad := a.mustCallOrExcuse(pipeline, sp, func(iff *ssa.If) (bool, bool) {
+				c := iff.Cond
+				pos := true
+				for {
+					if u, ok := c.(*ssa.UnOp); ok && u.Op == token.NOT {
+						c, pos = u.X, !pos
+						continue
+					}
+					break
+				}
+				if t := TermOf(c, nil); t.Kind == "field" && t.Field == g {
+					return !pos, pos
+				}
+				return false, false
+			}, 0)
+			construct := fmt.Sprintf("%s#spawns-%s-when-%s", fname(pipeline), sp.Name(), g.Name())
+			if bad == nil {
+				a.Ok(construct, ad.in.Pos(), "every path of %s to a return starts the goroutine counted by Start under %s (via %s), or took the branch where %s is false", fname(pipeline), g.Name(), fname(sp), g.Name())
+			} else {
+				a.Bad(construct, bad.Pos(), "%s can return without having started the goroutine that Start counted in lifecycle under %s (spawned by %s): lifecycle.Done is never called for it, Stop waits out its grace period with nothing in flight and its watcher goroutine stays parked", fname(pipeline), g.Name(), fname(sp))
+			}
+		}
+	}
+	if n == 0 {
+		a.Und("lifecycle-registered-spawns", start.Pos(), "no conditional lifecycle.Add / later spawn pair found (adds=%d spawners=%d)", len(adds), len(spawners))
+	}
+	return n
+}
